@@ -147,7 +147,10 @@ def case_fixedint(n: int, bits: int) -> dict:
 def case_json(obj) -> dict:
     from joserfc.util import json_b64encode, json_b64decode
     f = {}
-    seg = json_b64encode(obj)
+    try:
+        seg = json_b64encode(obj)
+    except Exception as e:
+        return {f"C19:json-encode-raises:{type(e).__name__}": f"json_b64encode({obj!r}) raised {type(e).__name__}: {e}"}
     if not isinstance(seg, bytes) or not _RE.match(seg):
         f["C19:json-segment-alphabet"] = f"json_b64encode gave {seg!r}"
         return f
@@ -157,9 +160,26 @@ def case_json(obj) -> dict:
     except Exception as e:
         f["C19:json-segment-not-json"] = f"segment does not hold UTF-8 JSON: {type(e).__name__}: {e}"
         return f
-    back = json_b64decode(seg)
+    try:
+        back = json_b64decode(seg)
+    except Exception as e:
+        return {f"C19:json-decode-raises:{type(e).__name__}": f"json_b64decode of the encoding of {obj!r} raised {type(e).__name__}: {e}"}
     if back != obj or via_ref != obj or not _same_types(back, obj):
         f["C19:json-roundtrip-lossy"] = f"json_b64decode(json_b64encode(h)) = {back!r} for h = {obj!r}"
+    # the decoded object belongs to the caller: editing it must not change what the same segment decodes to next time
+    if isinstance(back, dict):
+        back["x-edited"] = [1]
+        for v in back.values():
+            if isinstance(v, list):
+                v.append("edited")
+            elif isinstance(v, dict):
+                v["x-edited"] = 1
+    elif isinstance(back, list):
+        back.append("edited")
+    if isinstance(back, (dict, list)):
+        again = json_b64decode(seg)
+        if again != obj or not _same_types(again, obj):
+            f["C19:json-decode-depends-on-earlier-result"] = f"second json_b64decode of the same segment gave {again!r}; encoded object {obj!r}"
     return f
 
 
